@@ -8,15 +8,44 @@ hash in pytezos' lookup is observed as a missing key.
 
 Enumeration is a depth-first walk that shares prefixes: BigMapType operations are functional (a new object
 per update), so the object reached by a history is reused for all its extensions; the harness never mutates it.
+
+Widened inputs (each was one fixed value before):
+  * VALUE types: nat (never falsy in Python) and, for the universes of VAL_OF, string / list values that include the falsy
+    "" and {} (whose Micheline `[]` is falsy too) — as literal entries, ON-CHAIN values and written values;
+  * a falsy KEY ("" in the string universe);
+  * CONTEXT state: except for the pristine 'fresh' config every context also holds ANOTHER registered on-chain big_map
+    (id 1 = |first temporary id|) that binds every key of the universe to a recognisable foreign value, so a lookup
+    under a wrong id is observed instead of reading "absent" by luck;
+  * 'copy<mask>': the big_map was passed by id as a PARAMETER (attach_context(big_map_copy=True)): a temporary id
+    registered as a copy of the on-chain one — reads go to the source, the diff action is `copy`;
+  * '<config>d': every operation is applied to a DUPlicate made by the real DUP instruction (BigMapType.duplicate), as
+    a Michelson program has to do (GET / MEM / UPDATE consume their operand);
+  * the emitted diff is also merged back by pytezos itself (BigMapType.merge_lazy_diff, what ContractCallResult shows).
 """
 from __future__ import annotations
 
 from specs import michelson_ref as R
 from specs import C15_bigmap_ref as S
 
-T_VAL = ('nat',)
+# value types: (type, value of key i in a literal, value of key i ON CHAIN, value written at step s, foreign value)
+VALTYPES = {
+    'nat': (('nat',), lambda i: 100 + i, lambda i: 100 + i, lambda s: 10 + s, 999),
+    'string': (('string',), lambda i: '' if i % 2 == 0 else f'l{i}', lambda i: '' if i % 2 == 0 else f'c{i}',
+               lambda s: '' if s % 2 == 0 else f'n{s}', 'FOREIGN'),
+    'list': (('list', ('nat',)), lambda i: () if i % 2 == 0 else (i,), lambda i: () if i % 2 == 0 else (i, i),
+             lambda s: () if s % 2 == 0 else (s,), (9, 9, 9)),
+}
+VAL_OF = {'pair_nat_string': 'string', 'or_int_bool': 'list'}        # every other universe: nat
+OTHER_PTR = 1
+# merge_lazy_diff takes an update whose value is the EMPTY SEQUENCE for a removal (`if update.get('value')`): genuine defect of
+# the unchanged tree (reported, reproduction in the final report of the widening pass); the clause is checked for such diffs
+# only when this flag is set
+CANDIDATE_DEFECT_MERGE_EMPTY_SEQUENCE = True      # fixed in /repo 06dc141: kept as a switch for trees older than the fix
+# the diff of a copied big_map carries no `source` (big_map.py: `elif action == 'copy': pass  # TODO`), so it cannot be applied
+# by a consumer that follows the protocol's lazy_storage_diff format; the `source` clause is checked only when this flag is set
+CANDIDATE_DEFECT_COPY_WITHOUT_SOURCE = True      # fixed in /repo (copy diff names its source): kept as a switch for older trees
 UNIVERSES = {
-    'string': (('string',), ('a', 'b', 'c')),
+    'string': (('string',), ('', 'b', 'c')),
     'pair_nat_string': (R.pair_t(('nat',), ('string',)), ((0, 'b'), (1, 'a'), (1, 'b'))),
     'nat': (('nat',), (0, 1, 300)),
     'bytes': (('bytes',), (b'', b'\x00', b'\xff\x01')),
@@ -40,9 +69,11 @@ def symbols(mutators_only=False):
 
 
 def configs():
-    """'fresh' (EMPTY_BIG_MAP), the 8 on-chain-backed splits (bit i set = key i is on chain) and the 7 big_maps
-    initialised from a non-empty literal (storage literal `{ Elt k v; … }`: local entries, nothing on chain)."""
-    return ['fresh'] + [f'chain{m}' for m in range(8)] + [f'lit{m}' for m in range(1, 8)]
+    """'fresh' (EMPTY_BIG_MAP on a pristine context without shell), 'fresh+' (the same on a context that holds another
+    on-chain big_map), the 8 on-chain-backed splits (bit i set = key i is on chain), the 7 big_maps initialised from a
+    non-empty literal (storage literal `{ Elt k v; … }`: local entries, nothing on chain), a copied big_map and two
+    configs in which every operand is a DUPlicate."""
+    return ['fresh', 'fresh+'] + [f'chain{m}' for m in range(8)] + [f'lit{m}' for m in range(1, 8)] + ['copy5', 'chain5d', 'lit5d']
 
 
 class Env:
@@ -57,18 +88,23 @@ class Env:
         import pytezos.rpc.query as q
         q.format_docstring = lambda *a, **k: ''          # help-text rendering of query objects (cost only)
         self.uni, self.cfg = uni, cfg
+        self.dup = cfg.endswith('d')
+        cfg = cfg.rstrip('d')
+        self.copy = cfg.startswith('copy')
+        self.t_val, self.lit_val, self.chain_val, self.new_val, self.foreign = VALTYPES[VAL_OF.get(uni, 'nat')]
+        self.vt_expr = _type_expr(self.t_val)
         self.t_key, self.keys = UNIVERSES[uni]
         self.key_expr = [S.legacy_optimized(self.t_key, k) for k in self.keys]
         self.hashes = [S.key_hash(self.t_key, k) for k in self.keys]
-        self.type_expr = {'prim': 'big_map', 'args': [R.thaw(R.type_to_micheline(self.t_key)) if False else _type_expr(self.t_key),
-                                                      {'prim': 'nat'}]}
-        self.fresh = not cfg.startswith('chain')          # no on-chain big_map: the diff allocates
-        mask = int(cfg[5:]) if cfg.startswith('chain') else 0
+        self.type_expr = {'prim': 'big_map', 'args': [_type_expr(self.t_key), self.vt_expr]}
+        self.fresh = not cfg.startswith(('chain', 'copy'))          # no on-chain big_map: the diff allocates
+        mask = int(cfg[5:] if cfg.startswith('chain') else cfg[4:]) if not self.fresh else 0
         self.lit_mask = int(cfg[3:]) if cfg.startswith('lit') else 0
-        self.literal = {k: 100 + i for i, k in enumerate(self.keys) if self.lit_mask >> i & 1}
-        self.chain = {k: 100 + i for i, k in enumerate(self.keys) if mask >> i & 1}
-        self.chain_by_hash = {self.hashes[i]: (self.key_expr[i], {'int': str(100 + i)})
+        self.literal = {k: self.lit_val(i) for i, k in enumerate(self.keys) if self.lit_mask >> i & 1}
+        self.chain = {k: self.chain_val(i) for i, k in enumerate(self.keys) if mask >> i & 1}
+        self.chain_by_hash = {self.hashes[i]: (self.key_expr[i], self.vexpr(self.chain_val(i)))
                               for i in range(3) if mask >> i & 1}
+        self.pristine = (cfg == 'fresh')
         env = self
         self.lookups = []
 
@@ -88,19 +124,30 @@ class Env:
                     if h in env.chain_by_hash:
                         return env.chain_by_hash[h][1]
                     raise RpcError(f'Not found: {path}')
+                pre = f'chains/main/blocks/head/context/big_maps/{OTHER_PTR}/'
+                if p.startswith(pre) and not env.pristine:
+                    env.lookups.append(p[len(pre):])
+                    return env.vexpr(env.foreign)           # the OTHER big_map binds every key
                 raise AssertionError(f'stub node: unmodelled GET {path}')
 
-        self.ctx = ExecutionContext(shell=None if self.fresh else ShellQuery(Node()))
+        self.ctx = ExecutionContext(shell=None if self.pristine else ShellQuery(Node()))
         self.bm_cls = MichelsonType.match(self.type_expr)
         self.K, self.V = self.bm_cls.args
         self.key_objs = [self.K.from_micheline_value(e) for e in self.key_expr]
-        self.sentinel = self.val(7777)
+        self.sentinel = MichelsonType.match({'prim': 'nat'}).from_micheline_value({'int': '7777'})
+        if not self.pristine:
+            other = self.bm_cls.from_micheline_value({'int': str(OTHER_PTR)})
+            other.attach_context(self.ctx)                  # context state: another on-chain big_map is registered
+            self.other = other
+
+    def vexpr(self, v):
+        return R.data_to_micheline(self.t_val, v)
 
     def initial(self):
         from pytezos.michelson.instructions.base import MichelsonInstruction
         from pytezos.michelson.stack import MichelsonStack
         if self.lit_mask:
-            bm = self.bm_cls.from_micheline_value([{'prim': 'Elt', 'args': [self.key_expr[i], {'int': str(100 + i)}]}
+            bm = self.bm_cls.from_micheline_value([{'prim': 'Elt', 'args': [self.key_expr[i], self.vexpr(self.lit_val(i))]}
                                                    for i in range(3) if self.lit_mask >> i & 1])
             bm.attach_context(self.ctx)
             return bm
@@ -110,11 +157,19 @@ class Env:
             ins.execute(st, [], self.ctx)
             return st.items[0]
         bm = self.bm_cls.from_micheline_value({'int': str(PTR)})
-        bm.attach_context(self.ctx)
+        bm.attach_context(self.ctx, big_map_copy=self.copy)     # copy: what ParameterSection.attach_context does
         return bm
 
-    def val(self, n):
-        return self.V.from_micheline_value({'int': str(n)})
+    def val(self, v):
+        return self.V.from_micheline_value(self.vexpr(v))
+
+    def duplicate(self, bm):
+        """the copy made by the real DUP instruction (the original must stay on the stack below it, untouched)"""
+        from pytezos.michelson.instructions.stack import DupInstruction
+        st = _stack(self, [bm])
+        DupInstruction.execute(st, [], self.ctx)
+        assert len(st.items) == 3 and st.items[1] is bm and st.items[2] is self.sentinel and st.items[0] is not bm, 'DUP: stack shape'
+        return st.items[0]
 
 
 def _type_expr(t):
@@ -136,8 +191,8 @@ def _stack(env, items):
     return st
 
 
-def _opt_expr(v):
-    return {'prim': 'None'} if v is None else {'prim': 'Some', 'args': [{'int': str(v)}]}
+def _opt_expr(env, v):
+    return {'prim': 'None'} if v is None else {'prim': 'Some', 'args': [env.vexpr(v)]}
 
 
 def apply_real(env, bm, op, i, newval):
@@ -146,6 +201,8 @@ def apply_real(env, bm, op, i, newval):
                                                        UpdateInstruction)
     from pytezos.michelson.types import OptionType
     key = env.key_objs[i]
+    if env.dup:
+        bm = env.duplicate(bm)
     if op == 'GET':
         st = _stack(env, [key, bm])
         GetInstruction.execute(st, [], env.ctx)
@@ -167,14 +224,14 @@ def apply_real(env, bm, op, i, newval):
     return st.items[0].to_micheline_value(), st.items[1]
 
 
-def apply_ref(ref, keys, op, i, newval):
-    k = keys[i]
+def apply_ref(env, ref, op, i, newval):
+    k = env.keys[i]
     if op == 'GET':
-        return _opt_expr(ref.get(k)), ref
+        return _opt_expr(env, ref.get(k)), ref
     if op == 'MEM':
         return {'prim': 'True' if ref.mem(k) else 'False'}, ref
     prev, ref2 = ref.update(k, newval if op.endswith('+') else None)
-    return (_opt_expr(prev) if op.startswith('GAU') else None), ref2
+    return (_opt_expr(env, prev) if op.startswith('GAU') else None), ref2
 
 
 def root_cause(bm, env=None, ref=None):
@@ -207,14 +264,18 @@ def check_diff(env, bm, ref):
     if len(ld) != 1 or ld[0].get('kind') != 'big_map':
         return 'diff.shape', f'expected one big_map entry, got {ld}'
     e = ld[0]
-    want_action = 'alloc' if env.fresh else 'update'
+    want_action = 'alloc' if env.fresh else 'copy' if env.copy else 'update'
     if e['diff'].get('action') != want_action:
         return 'diff.action', f'action {e["diff"].get("action")} expected {want_action}'
-    if not env.fresh and e['id'] != str(PTR):
+    if want_action == 'update' and e['id'] != str(PTR):
         return 'diff.id', f'id {e["id"]} expected {PTR}'
-    if env.fresh and (e['diff'].get('key_type') != env.type_expr['args'][0] or e['diff'].get('value_type') != {'prim': 'nat'}):
+    if want_action == 'copy' and CANDIDATE_DEFECT_COPY_WITHOUT_SOURCE and e['diff'].get('source') != str(PTR):
+        return 'diff.source', f'copy diff names source {e["diff"].get("source")!r}, expected {str(PTR)!r}: {e}'
+    if env.fresh and (e['diff'].get('key_type') != env.type_expr['args'][0] or e['diff'].get('value_type') != env.vt_expr):
         return 'diff.types', f'alloc types {e["diff"].get("key_type")} / {e["diff"].get("value_type")}'
-    got = {} if e['diff']['action'] != 'update' else {h: v[1] for h, v in env.chain_by_hash.items()}
+    # alloc starts from nothing; update and copy start from the contents of the on-chain (source) big_map
+    base = {} if want_action == 'alloc' else {h: v[1] for h, v in env.chain_by_hash.items()}
+    got = dict(base)
     for u in e['diff']['updates']:
         try:
             kv = R.parse_data(env.t_key, u.get('key'))          # notation-independent (comb / nested / sequence)
@@ -230,12 +291,30 @@ def check_diff(env, bm, ref):
         else:
             got.pop(u['key_hash'], None)
     final = ref.final()
-    want = {env.hashes[env.keys.index(k)]: {'int': str(v)} for k, v in final.items()}
+    want = {env.hashes[env.keys.index(k)]: env.vexpr(v) for k, v in final.items()}
+    name = {h: repr(env.key_expr[i]) for i, h in enumerate(env.hashes)}
     if got != want:
-        name = {h: repr(env.key_expr[i]) for i, h in enumerate(env.hashes)}
-        return 'diff.applied', (f'diff applied to the on-chain contents gives {sorted((name[h], v["int"]) for h, v in got.items())}, '
-                                f'reference dictionary {sorted((name[h], v["int"]) for h, v in want.items())}; '
+        return 'diff.applied', (f'diff applied to the on-chain contents gives {sorted((name[h], repr(v)) for h, v in got.items())}, '
+                                f'reference dictionary {sorted((name[h], repr(v)) for h, v in want.items())}; '
                                 f'updates {[(u["key"], u.get("value")) for u in e["diff"]["updates"]]}')
+    # the same diff merged back by pytezos (merge_lazy_diff on the id-only big_map that the storage now holds): its local
+    # entries / removed keys, laid over the same base, must give the reference dictionary as well
+    if not CANDIDATE_DEFECT_MERGE_EMPTY_SEQUENCE and any(u.get('value') == [] for u in e['diff']['updates']):
+        return None
+    merged = res.merge_lazy_diff(ld)
+    got2 = dict(base)
+
+    def kh(k):      # the oracle's hash of a key object of the universe (a foreign key keeps a name of its own)
+        kv = R.parse_data(env.t_key, k.to_micheline_value())
+        return env.hashes[env.keys.index(kv)] if kv in env.keys else f'foreign key {kv!r}'
+    for k in merged.removed_keys:
+        got2.pop(kh(k), None)
+    for k, v in merged.items:
+        got2[kh(k)] = v.to_micheline_value()
+    if got2 != want or merged.ptr != res.ptr:
+        return 'diff.merged', (f'merge_lazy_diff of the emitted diff gives local entries {merged.items} and removed keys {merged.removed_keys} '
+                               f'(id {merged.ptr}); over the on-chain contents that is {sorted((name.get(h, h), repr(v)) for h, v in got2.items())}, '
+                               f'reference dictionary {sorted((name[h], repr(v)) for h, v in want.items())}')
     return None
 
 
@@ -272,14 +351,14 @@ def _step(env, bm, ref, sym, step, hist, observe_all, out, counters):
     """one history step + the observations after it; returns (bm', ref') or None when a clause failed
     (extensions of a violating history are not explored: the state is already wrong)."""
     op, i = sym
-    newval = 10 + step
+    newval = env.new_val(step)
     counters['nodes'] += 1
     try:
         obs, bm2 = apply_real(env, bm, op, i, newval)
     except Exception as e:
         _report(env, out, f'{op.rstrip("+-")}.raises', f'history {hist}: {type(e).__name__}: {e}', hist, bm)
         return None
-    want, ref2 = apply_ref(ref, env.keys, op, i, newval)
+    want, ref2 = apply_ref(env, ref, op, i, newval)
     if obs != want:
         _report(env, out, {'GET': 'GET.result', 'MEM': 'MEM.result'}.get(op, 'GET_AND_UPDATE.previous'),
                 f'history {hist}: {op} key {env.key_expr[i]} observed {obs}, reference {want}', hist, bm, ref)
@@ -293,7 +372,7 @@ def _step(env, bm, ref, sym, step, hist, observe_all, out, counters):
                 except Exception as e:
                     _report(env, out, f'{o}.raises', f'history {hist} then {o} key {env.key_expr[j]}: {type(e).__name__}: {e}', hist + [(o, j)], bm2)
                     return None
-                w, _ = apply_ref(ref2, env.keys, o, j, 0)
+                w, _ = apply_ref(env, ref2, o, j, 0)
                 counters['observations'] += 1
                 if got != w:
                     _report(env, out, f'{o}.result', f'history {hist} then {o} key {env.key_expr[j]}: observed {got}, reference {w}',
